@@ -96,6 +96,7 @@ class C15(Check):
         self.con = _Con()
         self.anchors = self._anchors_from_ast() + [("pox/openflow/__init__.py", 167, 193)]
         self._frames = FR.corpus()
+        self._known = common.Findings()
 
     def _anchors_from_ast(self):
         import ast
@@ -352,10 +353,12 @@ class C15(Check):
         if obs["slices"]: return "progress: " + obs["slices"]
         if obs["pktin"] != sk: return "PacketIn.parsed differs from ethernet(raw): %s vs %s" % (obs["pktin"][:3], sk[:3])
         if not obs.get("pktin_same_object"): return "PacketIn.parsed re-parses on every access"
-        for stage in ("pack", "str", "dump"):
-            x = obs[stage]
-            if isinstance(x, dict): return "%s() of the parse result raises %s in %s" % (stage, x["exc"], x["where"])
-        return None
+        # pack / str / dump: one registered finding must not hide another failure of the same frame
+        fails = ["%s() of the parse result raises %s in %s" % (stage, obs[stage]["exc"], obs[stage]["where"])
+                 for stage in ("pack", "str", "dump") if isinstance(obs[stage], dict)]
+        for f in fails:
+            if self._known.match(self.id, self._finding_key(case, obs, f)) is None: return f
+        return fails[0] if fails else None
 
     def finding_key(self, case, obs, failure):
         k = self._finding_key(case, obs, failure)
